@@ -104,7 +104,7 @@ def run(cx, tier='quick'):
     from .scope import check_scopes
     check_scopes(cx, rep, None)
     rep.floor('TPL-PARSE', 200, '(276 templates today)')
-    rep.floor('TPL-OPT', 5, '(9 optional-hole positions today)')
+    rep.floor('TPL-OPT', 3, '(4 optional-hole positions today; let-bound sub-templates are inlined into their parent template)')
     rep.floor('TPL-ARITY', 40)
     rep.floor('GEN-SCOPE', 40)
     from . import c12
